@@ -243,6 +243,66 @@ EXC = {
 }
 
 
+UNTRUSTED_TYPES = ('delta::Delta', 'delta::DeltaOp', 'signature::Signature', 'signature::BlockSignature', 'protocol::FrameHeader', 'protocol::Message',
+                   'wire::Request', 'wire::Response')
+
+
+def internal_debug_assertion(F, b, bi):
+    """the panic in block `bi` belongs to a `debug_assert*!` (behind `cfg!(debug_assertions)`) whose condition is computed from
+    values no field of a decoded input structure flows into"""
+    fl = flow_of(b)
+    cfg = fl.cfg
+    # (a) debug-only: dominated by a switch on a constant `true` (what cfg!(debug_assertions) expands to in this configuration)
+    dbg = False
+    conds = []
+    for s_ in cfg.reachable():
+        t = b.blocks[s_]['term']
+        if t['k'] != 'switch' or s_ == bi or not cfg.dominates(s_, bi):
+            continue
+        if t['on']['k'] == 'const':
+            dbg = True
+            continue
+        l = t['on']['p']['l']
+        if any(st['dst']['l'] == l and st['rv']['k'] == 'use' and st['rv']['ops'][0]['k'] == 'const' and st['rv']['ops'][0].get('v') in (1, True)
+               for st in b.blocks[s_]['stmts']):
+            dbg = True
+            continue
+        conds.append((s_, t['on']))
+    if not dbg or not conds:
+        return False
+    # (b) the nearest test decides the assertion; what it examines
+    s_, cond = max(conds, key=lambda x: len(cfg.reach(0, cut_blocks=[x[0]])))
+    seen, work = set(), [cond]
+    steps = 0
+    while work and steps < 400:
+        steps += 1
+        op = work.pop()
+        for o in fl.origins(op, mut_calls=True):
+            k = (o.kind, str(o.key), o.bb, tuple(o.path))
+            if k in seen:
+                continue
+            seen.add(k)
+            if o.kind in ('param', 'upvar'):
+                tb = b
+                idx = o.key
+                if o.kind == 'upvar':
+                    return False        # captured state: not followed
+                ty = tb.local_ty(idx)
+                if any(u in ty for u in UNTRUSTED_TYPES) and (tuple(o.path) or True):
+                    # `self` of the structure's own methods is the value under construction, not a decoded input
+                    own = b.path.split('::{')[0].rsplit('::', 1)[0]
+                    if not (idx == 1 and own and own in ty):
+                        return False
+            elif o.kind in ('call', 'mutcall') and o.bb is not None:
+                c = str(o.key)
+                if 'deserialize' in c or 'from_reader' in c or c.endswith('::read') or c.endswith('::read_exact'):
+                    return False
+                for a in b.blocks[o.bb]['term'].get('args', []):
+                    if a['k'] != 'const':
+                        work.append(a)
+    return True
+
+
 def site_signature(b, bi):
     """(op, origins of each operand) of a checked arithmetic op or an index expression; None when not comparable"""
     fl = flow_of(b)
@@ -328,6 +388,13 @@ def run_entries(ctx, rid, entries, text, floor_bodies=3):
                 slack[(f_, kind)] -= len(lst)
                 ctx.ok(rid, '%s:%s' % (top, kind), '%d site(s) in a new helper; tabled functions of this file have that many fewer than tabled (judged sites moved into the helper)'
                        % len(lst), term_loc(lst[0][0], lst[0][1]))
+            elif kind == 'panic' and len(lst) > mx and sum(1 for (b, bi, d) in lst if not internal_debug_assertion(F, b, bi)) <= mx:
+                # more assertion sites than tabled, but the surplus are debug-only assertions about values the function
+                # computed itself (no field of a decoded input structure reaches the condition): whether they can fail is a
+                # question about the function's logic, not about hostile input - not decided here, and not reported
+                extra = [(b, bi, d) for (b, bi, d) in lst if internal_debug_assertion(F, b, bi)]
+                ctx.undecided(rid, '%s: %d debug-only assertion(s) on internal state beyond the tabled %d (%s)' % (
+                    top, len(extra), mx, '; '.join(d for _, _, d in extra[:3])))
             else:
                 where = '; '.join('%s [%s]' % (term_loc(b, bi), d) for b, bi, d in lst[:6])
                 ctx.bad(rid, '%s:%s' % (top, kind),
